@@ -126,6 +126,8 @@ func genSHistory(r *Rng, maxOps int, exec func(SOp) OpResult) {
 	now := base
 	nschemas := 0
 	var versions []string
+	var iked []SOp
+	out_replays := 0
 	var okTx []int64
 	ntx := int64(0)
 	for i := 0; i < n; i++ {
@@ -208,7 +210,39 @@ func genSHistory(r *Rng, maxOps int, exec func(SOp) OpResult) {
 				case t < 32:
 					so.Tpl = Pick(r, []string{"p2", "out", "nope"})
 				}
+				if so.Tpl != "" { // the template's script replaces the submitted one: nothing else of the script is part of the input
+					o.Post, o.Force = nil, false
+				}
 			}
+			if r.Chance(22) {
+				o.IK = Pick(r, []string{"ik1", "ik2", "ik3"})
+			}
+			// replay of an earlier write under its idempotency key: same input, or another version / template / metadata
+			if len(iked) > 0 && r.Chance(14) {
+				so = iked[r.Intn(len(iked))]
+				so.Op.Now = now
+				switch r.Intn(6) {
+				case 0:
+					so.Version = Pick(r, []string{"", "v1", "v2", "v9"})
+				case 1:
+					if so.Op.Kind == "create" {
+						so.Tpl = Pick(r, []string{"", "pay", "p2"})
+						if so.Tpl != "" {
+							so.Op.Post, so.Op.Force = nil, false
+						} else if len(so.Op.Post) == 0 {
+							so.Op.Post = []Posting{{"world", "bank", "USD", big.NewInt(9)}}
+						}
+					}
+				case 2:
+					so.Op.Meta = append(append([]KV{}, so.Op.Meta...), KV{"zz", "1"})
+					sort.Slice(so.Op.Meta, func(a, b int) bool { return so.Op.Meta[a].K < so.Op.Meta[b].K })
+					so.Op.Meta = dedupKV(so.Op.Meta)
+				}
+				out_replays++
+			}
+		}
+		if !so.Schema && so.Op.IK != "" {
+			iked = append(iked, so)
 		}
 		res := exec(so)
 		if res.Panic != "" {
@@ -221,7 +255,18 @@ func genSHistory(r *Rng, maxOps int, exec func(SOp) OpResult) {
 			versions = append(versions, so.Version)
 		}
 	}
-	_ = nschemas
+	_, _ = nschemas, out_replays
+}
+
+func dedupKV(m []KV) []KV {
+	var out []KV
+	for _, kv := range m {
+		if len(out) > 0 && out[len(out)-1].K == kv.K {
+			continue
+		}
+		out = append(out, kv)
+	}
+	return out
 }
 
 // ---------------------------------------------------------------- executor
@@ -340,6 +385,15 @@ func (sr *SRun) exec(so SOp) (res OpResult) {
 		if res.Tx != nil && res.Tx.ID != nil {
 			id := int64(*res.Tx.ID)
 			res.TxID = &id
+		} else if hit {
+			switch p := log.Data.(type) {
+			case ledger.CreatedTransaction:
+				id := int64(*p.Transaction.ID)
+				res.TxID = &id
+			case ledger.RevertedTransaction:
+				id := int64(*p.RevertTransaction.ID)
+				res.TxID = &id
+			}
 		}
 	}
 	return res
@@ -436,8 +490,8 @@ func monitorC29(sr *SRun) string {
 		snap, extra := sr.Snaps[i].sx(), sr.Extras[i]
 		acc := accMetaOf(sr.Snaps[i])
 		step := fmt.Sprintf("step %d (%s mode)", i, sr.Mode)
-		if i > 0 && (res.Class != "none" || so.Op.Dry) && (snap != prevSnap || extra != prevExtra) {
-			return fmt.Sprintf("%s: operation answered %q (dry=%v) but the ledger changed [rejected-write-left-a-trace]", step, res.Class, so.Op.Dry)
+		if i > 0 && (res.Class != "none" || so.Op.Dry || res.Hit) && (snap != prevSnap || extra != prevExtra) {
+			return fmt.Sprintf("%s: operation answered %q (dry=%v, idempotency hit=%v) but the ledger changed [rejected-write-left-a-trace]", step, res.Class, so.Op.Dry, res.Hit)
 		}
 		if so.Schema {
 			if res.Class == "none" {
@@ -461,10 +515,10 @@ func monitorC29(sr *SRun) string {
 				viol = "no-template"
 			}
 			if sr.Mode == "strict" {
-				if viol != "" && res.Class == "none" {
+				if viol != "" && res.Class == "none" && !res.Hit {
 					return fmt.Sprintf("%s: strict mode accepted a write violating the schema rules (%s) [strict-accepted-%s]", step, viol, viol)
 				}
-				if res.Class == "none" && sc != nil && res.Tx != nil && so.Op.Kind == "create" {
+				if res.Class == "none" && !res.Hit && sc != nil && res.Tx != nil && so.Op.Kind == "create" {
 					for _, p := range res.Tx.Postings {
 						if err := sc.chart.ValidatePosting(p); err != nil {
 							return fmt.Sprintf("%s: strict mode committed posting %s->%s although the chart of schema %s rejects it: %v [strict-accepted-outside-chart]", step, p.Source, p.Destination, so.Version, err)
@@ -564,6 +618,12 @@ func cmdSchemaHist(args []string) int {
 				}
 				if sr.Ops[i].Tpl != "" {
 					out.Stats["with_template"]++
+				}
+				if sr.Ops[i].Op.IK != "" {
+					out.Stats["with_idempotency_key"]++
+				}
+				if r.Hit {
+					out.Stats["idempotency_hits"]++
 				}
 			}
 		}
